@@ -61,4 +61,29 @@ RangeOK(r) == /\ Len(r[1]) >= 1 /\ Len(r[1]) = Len(r[2]) /\ LexLeq(r[1], r[2])
               /\ \A i \in 1..Len(r[2]) : r[2][i] # DASH /\ ~IsWsCp(r[2][i])
 WellFormedLine(s) == /\ \A i \in 1..Len(Ranges(s)) : RangeOK(Ranges(s)[i])
                      /\ Props(s).ok
+
+(* ---- from lines to the tree ------------------------------------------------------------------------------------ *)
+(* A file is a sequence of parsed lines [indent, ranges, props].  A line deeper than the previous one hangs under ALL     *)
+(* ranges of the nearest shallower preceding line; a line at an indentation that is still open continues that level.     *)
+(* The tree is built with a stack of <<indent, paths>>, paths being the positions (index paths through kids) of the       *)
+(* entries the line at that indentation created.                                                                          *)
+EntriesOf(ln) == [i \in 1..Len(ln.ranges) |->
+                    [len |-> Len(ln.ranges[i][1]), low |-> ln.ranges[i][1], high |-> ln.ranges[i][2], props |-> ln.props, kids |-> <<>>]]
+RECURSIVE AppendAt(_, _, _)
+AppendAt(level, path, entries) ==
+  IF path = <<>> THEN level \o entries
+  ELSE [level EXCEPT ![path[1]].kids = AppendAt(@, Tail(path), entries)]
+RECURSIVE KidsAt(_, _)
+KidsAt(level, path) == IF path = <<>> THEN level ELSE KidsAt(level[path[1]].kids, Tail(path))
+PopTo(stack, d) == LET keep == {i \in 1..Len(stack) : stack[i][1] < d}
+                   IN SubSeq(stack, 1, IF keep = {} THEN 0 ELSE CHOOSE i \in keep : \A j \in keep : j <= i)
+BuildStep(st, ln) ==
+  LET stack == PopTo(st.stack, ln.indent)
+      parents == IF stack = <<>> THEN << <<>> >> ELSE stack[Len(stack)][2]
+      ents == EntriesOf(ln)
+      (* positions of the new entries under each parent, computed before anything is inserted *)
+      newpaths == FoldLeft(LAMBDA acc, p : acc \o [i \in 1..Len(ents) |-> p \o <<Len(KidsAt(st.tree, p)) + i>>], <<>>, parents)
+      tree2 == FoldLeft(LAMBDA t, p : AppendAt(t, p, ents), st.tree, parents)
+  IN [tree |-> tree2, stack |-> Append(stack, <<ln.indent, newpaths>>)]
+BuildTree(lines) == FoldLeft(BuildStep, [tree |-> <<>>, stack |-> <<>>], lines).tree
 =============================================================================
